@@ -145,7 +145,7 @@ func (c *Ctx) TLC(opt TLCOpt) *TLCResult {
 					opt.OnVec([]byte(s[4:]))
 				}
 			} else {
-				if opt.Grep != nil && len(res.Grepped) < 200 && opt.Grep.MatchString(l) {
+				if opt.Grep != nil && len(res.Grepped) < 20000 && opt.Grep.MatchString(l) {
 					res.Grepped = append(res.Grepped, l)
 				}
 				if m := reStates.FindStringSubmatch(l); m != nil {
